@@ -1,6 +1,7 @@
 """C19 - any constructible circuit can be displayed, without side effects."""
 import xml.etree.ElementTree as ET
 
+import numpy as np
 from hypothesis import strategies as st
 
 from vlib import gen
@@ -24,8 +25,19 @@ LABELS = st.sampled_from([None, None, "a", "θ", "phi_1", "a very long parameter
 
 
 @st.composite
+def with_invisible_group(draw):
+    """A circuit that contains a sub-circuit all of whose modes are heralded (a group without any visible mode)."""
+    n = draw(st.integers(1, 4))
+    ops = draw(st.lists(gen.primitive(n, True), max_size=3))
+    child = draw(gen.fully_heralded_program(max_n=2))
+    ops.append(["add", child, draw(st.integers(0, n - 1)), True, draw(st.sampled_from([None, "anc"]))])
+    ops += draw(st.lists(gen.primitive(n, True), max_size=2))
+    return {"n": n, "ops": ops}
+
+
+@st.composite
 def display_case(draw, backend=None):
-    kind = draw(st.integers(0, 4))
+    kind = draw(st.integers(0, 5))
     if kind == 0:
         progs = gen.program(min_n=1, max_n=6, depth=3, max_ops=8, max_herald_photons=2)
     elif kind == 1:
@@ -34,15 +46,18 @@ def display_case(draw, backend=None):
         progs = gen.flat_program(min_n=1, max_n=6, max_ops=10)
     elif kind == 3:
         progs = gen.swap_heavy_program()
-    else:
+    elif kind == 4:
         progs = gen.gate_program(n_qubits=draw(st.integers(1, 3)), max_gates=4, max_heralded=2, three=True)
+    else:
+        progs = with_invisible_group()
     pp = draw(gen.parametrized(progs, max_params=3))
     nlab = len(pp["values"])
     ml = draw(st.sampled_from(["none", "none", "right", "right-objects", "short", "long"]))
     return {"prog": pp["prog"], "values": pp["values"], "plabels": [draw(LABELS) for _ in range(nlab)],
             "backend": backend or draw(st.sampled_from(["svg", "svg", "mpl"])),
             "display_loss": draw(st.booleans()), "show_values": draw(st.booleans()), "mode_labels": ml,
-            "bad_type": draw(st.sampled_from([None, None, None, "png", "SVG", ""]))}
+            "bad_type": draw(st.sampled_from(["-", "-", "-", "-", "png", "SVG", "", None, 0, ["svg"]])),
+            "phase_type": draw(st.sampled_from(["py", "py", "float64", "float32", "int64"]))}
 
 
 def run_display(case):
@@ -50,7 +65,15 @@ def run_display(case):
     import matplotlib.pyplot as plt
     from lightworks.sdk.utils import DisplayError
     params = [lw.Parameter(v, label=l) for v, l in zip(case["values"], case["plabels"])]
-    c = call("build", build_real, case["prog"], params)
+    pt = case.get("phase_type", "py")
+    phase_cast = None
+    if pt == "float64":
+        phase_cast = np.float64
+    elif pt == "float32":
+        phase_cast = np.float32
+    elif pt == "int64":
+        phase_cast = lambda v: np.int64(v) if isinstance(v, int) else np.float64(v)  # noqa: E731
+    c = call("build", build_real, case["prog"], params, None, phase_cast)
     snap = snapshot(c)
     n_user = c.n_modes - len(c._internal_modes)
     ml = case["mode_labels"]
@@ -70,7 +93,7 @@ def run_display(case):
           "show_parameter_values": case["show_values"]}
     info = []
     try:
-        if case["bad_type"] is not None:
+        if case["bad_type"] != "-":
             expect_raises("unknown-display-type", (DisplayError,), lw.Display, c, display_type=case["bad_type"], **kw)
             info.append("unknown-type-rejected")
         if expect_error:
